@@ -124,6 +124,7 @@ class Engine:
         self.sigmas = []
         self.native_template = None
         self._globals_cache = {}
+        self._defaults_cache = {}
         self.no_fork = False
         self._inc = None
         self._inc_n = 0
@@ -677,7 +678,7 @@ class Engine:
                 di = i - (len(params) - ndef)
                 if di < 0:
                     self.throw(TypeError, 'missing argument %s' % p)
-                locs[p] = self.eval_in_module(defaults[di], fi.module)
+                locs[p] = self.default_value(fi, ('pos', di), defaults[di])
         extra = args[len(params):]
         if a.vararg:
             locs[a.vararg.arg] = VTuple(extra)
@@ -687,7 +688,7 @@ class Engine:
             if p.arg in kwargs:
                 locs[p.arg] = kwargs.pop(p.arg)
             elif d is not None:
-                locs[p.arg] = self.eval_in_module(d, fi.module)
+                locs[p.arg] = self.default_value(fi, ('kw', p.arg), d)
             else:
                 self.throw(TypeError, 'missing kw-only argument')
         if a.kwarg:
@@ -695,6 +696,13 @@ class Engine:
         elif kwargs:
             self.throw(TypeError, 'unexpected keyword argument %s' % list(kwargs))
         return locs
+
+    def default_value(self, fi, key, expr):
+        """default argument values are created once, when the def statement runs: mutable defaults keep their state between calls"""
+        k = (fi.qualname, key)
+        if k not in self._defaults_cache:
+            self._defaults_cache[k] = self.eval_in_module(expr, fi.module)
+        return self._defaults_cache[k]
 
     def eval_in_module(self, expr, module):
         fr = Frame(None, module, {})
@@ -817,6 +825,8 @@ class Engine:
                 ci = c['__class__']
                 if name == '__class__':
                     return VClass(ci)
+                if name == '__dict__':
+                    return self.new_dict({k2: v2 for k2, v2 in c.items() if not k2.startswith('__') and not k2.startswith('_g_')})
                 m = self.program.find_method(ci, name)
                 owner, aexpr = self.program.find_class_attr(ci, name)
                 if m is not None:
@@ -1306,6 +1316,7 @@ class Engine:
             raise PathEnd()
         else:
             self.cover(tag + '/exit')
+            self.ghost.setdefault('loop_ghosts', {})[tag] = dict(g)      # ghost values at loop exit, for the unit's postconditions
             self.exec_block(s.orelse, fr)
 
     def check_loop_frame(self, head, st, fr, tag, modified):
@@ -1802,7 +1813,16 @@ class Engine:
             if k == 'list':
                 sq = self.getf(obj, 'val')
                 if isinstance(idx, VSlice):
-                    raise Unsupported('slice assignment')
+                    sq = self.fix_len(sq)
+                    lo = 0 if idx.lo is NONE else conc_int(self.as_int(idx.lo))
+                    hi = sq.clen() if idx.hi is NONE else conc_int(self.as_int(idx.hi))
+                    new = self.fix_len(self.list_val(val))
+                    if sq.clen() is None or lo is None or hi is None or new.clen() is None or idx.step is not NONE:
+                        raise Unsupported('slice assignment with symbolic bounds')
+                    items = [sq.at(z3.IntVal(k)) for k in range(sq.clen())]
+                    items[lo:hi] = [new.at(z3.IntVal(k)) if new.kind == 'list' else self.seq_elem_value(new, z3.IntVal(k)) for k in range(new.clen())]
+                    self.setf(obj, 'val', seq_items('list', items))
+                    return
                 i = self.as_int(idx, 'index')
                 n = sq.n
                 i = z3.simplify(z3.If(i < 0, i + n, i))
@@ -1946,6 +1966,15 @@ class Engine:
     def ex_GeneratorExp(self, e, fr):
         from . import models
         return models.list_comp(self, e, fr, lazy=True)
+
+    def ex_SetComp(self, e, fr):
+        from . import models
+        lst = models.list_comp(self, ast.ListComp(elt=e.elt, generators=e.generators), fr)
+        return models.MODELS['set'](self, [lst], {})
+
+    def ex_Set(self, e, fr):
+        from . import models
+        return models.MODELS['set'](self, [self.new_list(seq_items('list', self.eval_elts(e.elts, fr)))], {})
 
     def ex_DictComp(self, e, fr):
         from . import models
